@@ -9,7 +9,7 @@ props = ["C%02d" % i for i in range(1, 21)]
 rc = 0
 def one(patch):
     return patch, patchrun.run(patch, props)
-with concurrent.futures.ThreadPoolExecutor(4) as ex:
+with concurrent.futures.ThreadPoolExecutor(int(os.environ.get("VERIF_JOBS", "10"))) as ex:
     for patch, (st, out) in ex.map(one, sys.argv[1:]):
         if st != "ok":
             print("DOES-NOT-APPLY", patch); continue
